@@ -329,9 +329,7 @@ class Ctx:
                 continue  # native-only helper (not translated)
             pnames = [a.arg for a in fd.args.args]
             has_quant = any(isinstance(n, ast.Lambda) for n in ast.walk(fd))
-            recursive = any(
-                isinstance(n, ast.Call) and isinstance(n.func, ast.Name) and n.func.id == name for n in ast.walk(fd)
-            )
+            recursive = name in self._reach(name)
             if self.expand_quant:
                 self.specfuncs[name] = ("macro", fd, pk, rk, pnames, recursive)
             else:
@@ -347,7 +345,7 @@ class Ctx:
             fd = self.specdefs[name]
             args = [fresh(k, p) for k, p in zip(pk, pnames)]
             env = Env({p: a for p, a in zip(pnames, args)}, {})
-            self._defining = name if recursive else None
+            self._defining = (self._reach(name) & self._reached_by(name)) | {name} if recursive else None
             body = self._spec_body(fd.body, env, rk)
             self._defining = None
             app = fn(*[a.t for a in args])
@@ -356,6 +354,29 @@ class Ctx:
             if recursive:
                 self.axioms_z3.append(z3.ForAll(consts, app == low(*consts), patterns=[app]))
 
+    def _calls(self, name):
+        fd = self.specdefs.get(name)
+        if fd is None:
+            return set()
+        return {n.func.id for n in ast.walk(fd) if isinstance(n, ast.Call) and isinstance(n.func, ast.Name) and n.func.id in self.specdefs}
+
+    def _reach(self, name):
+        """spec functions reachable from `name` through calls (not including itself unless on a cycle)"""
+        cache = self.__dict__.setdefault("_reach_cache", {})
+        if name not in cache:
+            seen, todo = set(), list(self._calls(name))
+            while todo:
+                x = todo.pop()
+                if x in seen:
+                    continue
+                seen.add(x)
+                todo.extend(self._calls(x))
+            cache[name] = seen
+        return cache[name]
+
+    def _reached_by(self, name):
+        return {x for x in self.specdefs if name in self._reach(x)}
+
     def call_spec(self, name, args):
         tag, fn, pk, rk, pnames, recursive = self.specfuncs[name]
         if len(args) != len(pk):
@@ -363,12 +384,12 @@ class Ctx:
         args = [coerce(a.inner if (isinstance(a, VOpt) and not k.startswith("opt[")) else a, k) for a, k in zip(args, pk)]
         if tag == "uf":
             f, low = fn
-            if self._defining == name:
+            if self._defining and name in self._defining and low is not None:
                 return wrap(rk, low(*[a.t for a in args]))
             return wrap(rk, f(*[a.t for a in args]))
         # macro expansion (quantified bodies; everything in small-scope mode)
         depth = self._depth.get(name, 0)
-        if recursive and depth >= self.MAX_DEPTH:
+        if recursive and sum(self._depth.get(m, 0) for m in (self._reach(name) & self._reached_by(name)) | {name}) >= self.MAX_DEPTH:
             # beyond the unrolling depth: exclude this case from the small scope
             self.scope_assumptions.append(z3.Not(z3.And(*self.guards)) if self.guards else z3.BoolVal(False))
             return fresh(rk, name + "_cut")
@@ -412,6 +433,8 @@ class Ctx:
 
     def _declare_axioms(self):
         for ax in api.AXIOMS:
+            if ax.manual:
+                continue
             vs = {n: fresh(k, n) for n, k in ax.vars.items()}
             env = Env(vs, {})
             body = truthy(Pure(self, env).ev(_parse_spec(ax.expr)))
@@ -591,6 +614,8 @@ class Pure:
             lo = bound(e.slice.lower, z3.IntVal(0))
             hi = bound(e.slice.upper, z3.Length(base.t))
             return VSeq(base.kind, z3.SubSeq(base.t, lo, hi - lo))
+        if isinstance(base, VOpt):
+            base = base.inner  # the clause guards with `is not None`
         if isinstance(base, VRec):
             k = self.ev(e.slice)
             return base.fields[k.s]
@@ -720,8 +745,12 @@ class Pure:
                             g.pop()
                         insts.append(z3.Implies(lo + d < hi, inst) if name == "all_" else z3.And(lo + d < hi, inst))
                     return VBool(z3.And(insts) if name == "all_" else z3.Or(insts))
-                j = z3.Int(f"{jn}!q{next_id()}")
-                env2 = Env(self.env.vars, self.env.heap, self.env.old, {**self.env.bound, jn: VInt(j)})
+                # deterministic bound-variable names (by nesting depth): two evaluations of the same
+                # quantified clause over the same terms yield the identical z3 term, so a ground lemma
+                # instance whose hypothesis is quantified is discharged propositionally
+                qd = len([k for k in self.env.bound if k.startswith("!qd")])
+                j = z3.Int(f"{jn}!q{qd}")
+                env2 = Env(self.env.vars, self.env.heap, self.env.old, {**self.env.bound, jn: VInt(j), f"!qd{qd}": VInt(0)})
                 body = Pure(self.ctx, env2, self.result).b(lam.body)
                 rng = z3.And(lo <= j, j < hi)
                 if name == "all_":
@@ -743,6 +772,16 @@ class Pure:
             if name == "int" or name == "bool":
                 a = self.ev(e.args[0])
                 return a if name == "int" else VBool(truthy(a))
+            if name == "prefix_of":
+                a, b = self.ev(e.args[0]), self.ev(e.args[1])
+                a = a.inner if isinstance(a, VOpt) else a
+                b = b.inner if isinstance(b, VOpt) else b
+                if isinstance(a, VStrConst):
+                    a = str_const(a.s)
+                # an uninterpreted predicate (constrained by the sidecar's axioms): z3's sequence solver
+                # does not return within its time-out on queries that mix PrefixOf with quantifiers
+                fn = self.ctx.funcs.setdefault("prefix_of", z3.Function("prefix_of", IntSeq, IntSeq, BOOL))
+                return VBool(fn(a.t, b.t))
             if name == "empty_int":
                 return VSeq("list[int]", z3.Empty(IntSeq))
             if name == "empty_of":
